@@ -193,13 +193,13 @@ func sysStream(idx int, in decInput, r *vk.Rand) hostileStream {
 }
 
 type c28Msg struct {
-	Kind   string           `json:"kind"` // viol | done | progress
-	Rule   string           `json:"rule,omitempty"`
+	Kind   string            `json:"kind"` // viol | done | progress
+	Rule   string            `json:"rule,omitempty"`
 	Attrs  map[string]string `json:"attrs,omitempty"`
-	Detail string           `json:"detail,omitempty"`
-	Stream *hostileStream   `json:"stream,omitempty"`
-	Counts map[string]int64 `json:"counts,omitempty"`
-	Index  int              `json:"index,omitempty"`
+	Detail string            `json:"detail,omitempty"`
+	Stream *hostileStream    `json:"stream,omitempty"`
+	Counts map[string]int64  `json:"counts,omitempty"`
+	Index  int               `json:"index,omitempty"`
 }
 
 // reference client: conservation monitor (sent = acknowledged = echoed, in order, exactly once; pings answered)
